@@ -149,7 +149,8 @@ Proof.
     + match goal with |- ckeeps a w (fst (if ?c then _ else _)) => destruct c end; cbn [fst].
       * ct; [exact HW|apply ck_deactivate; exact Hc].
       * ct; [exact HW|apply ck_change].
-  - match goal with |- ckeeps a w (fst (match crashed ?W with _ => _ end)) =>
+  - destruct (match main (gett w aux) with Some (mt, m) => _ | None => false end); [apply ck_refl|].
+    match goal with |- ckeeps a w (fst (match crashed ?W with _ => _ end)) =>
       assert (HW : ckeeps a w W); [|destruct (crashed W)] end.
     { ct; [apply ck_sub_segue; exact Hc|]. apply ck_guard; intros; apply ck_sub_recur; exact Hc. }
     + exact HW.
